@@ -158,26 +158,55 @@ fn per_topic_call(c: &Call) -> bool {
 
 /// The statement's inequalities, read back through the public getters. Returns the first
 /// violated one as (signature, detail).
-fn violated(cfg: &Config) -> Option<(&'static str, serde_json::Value)> {
-    let set = |scope: String, out: usize, low: usize, n: usize, high: usize| -> Option<(&'static str, serde_json::Value)> {
-        let d = json!({"scope": scope, "mesh_outbound_min": out, "mesh_n_low": low, "mesh_n": n, "mesh_n_high": high});
-        let default = scope == "default";
+/// Signature suffix of the known finding: build() validates a per-topic mesh parameter set only when the topic
+/// also has its own max_transmit_size (the repository's own test-suite relies on the missing validation).
+const UNVALIDATED: &str = "-for-topic-without-own-transmit-size";
+
+fn violated(cfg: &Config, calls: &[Call]) -> Option<(&'static str, serde_json::Value)> {
+    // 0 = default set, 1 = topic with its own transmit size, 2 = topic without
+    let set = |scope: String, kind: u8, out: usize, low: usize, n: usize, high: usize| -> Option<(&'static str, serde_json::Value)> {
+        let d = json!({"scope": scope, "mesh_outbound_min": out, "mesh_n_low": low, "mesh_n": n, "mesh_n_high": high, "topic_has_own_transmit_size": kind == 1});
         if !(out <= low && low <= n && n <= high) {
-            return Some((if default { "C34:accepted-default-mesh-params-out-of-order" } else { "C34:accepted-topic-mesh-params-out-of-order" }, d));
+            return Some((
+                match kind {
+                    0 => "C34:accepted-default-mesh-params-out-of-order",
+                    1 => "C34:accepted-topic-mesh-params-out-of-order",
+                    _ => "C34:accepted-topic-mesh-params-out-of-order-for-topic-without-own-transmit-size",
+                },
+                d,
+            ));
         }
         if 2 * out > n {
-            return Some((if default { "C34:accepted-default-outbound-min-above-half-mesh-n" } else { "C34:accepted-topic-outbound-min-above-half-mesh-n" }, d));
+            return Some((
+                match kind {
+                    0 => "C34:accepted-default-outbound-min-above-half-mesh-n",
+                    1 => "C34:accepted-topic-outbound-min-above-half-mesh-n",
+                    _ => "C34:accepted-topic-outbound-min-above-half-mesh-n-for-topic-without-own-transmit-size",
+                },
+                d,
+            ));
         }
         None
     };
-    if let Some(v) = set("default".into(), cfg.mesh_outbound_min(), cfg.mesh_n_low(), cfg.mesh_n(), cfg.mesh_n_high()) {
+    if let Some(v) = set("default".into(), 0, cfg.mesh_outbound_min(), cfg.mesh_n_low(), cfg.mesh_n(), cfg.mesh_n_high()) {
         return Some(v);
     }
-    for t in 0..NTOPICS {
-        let h = th(t);
-        if let Some(v) = set(topic_name(t), cfg.mesh_outbound_min_for_topic(&h), cfg.mesh_n_low_for_topic(&h), cfg.mesh_n_for_topic(&h), cfg.mesh_n_high_for_topic(&h)) {
-            return Some(v);
+    let topics = |want: u8| -> Option<(&'static str, serde_json::Value)> {
+        for t in 0..NTOPICS {
+            let own = calls.iter().any(|c| matches!(c, Call::MaxTransmitFor(_, tt) if *tt == t));
+            let kind = if own { 1 } else { 2 };
+            if kind != want {
+                continue;
+            }
+            let h = th(t);
+            if let Some(v) = set(topic_name(t), kind, cfg.mesh_outbound_min_for_topic(&h), cfg.mesh_n_low_for_topic(&h), cfg.mesh_n_for_topic(&h), cfg.mesh_n_high_for_topic(&h)) {
+                return Some(v);
+            }
         }
+        None
+    };
+    if let Some(v) = topics(1) {
+        return Some(v);
     }
     if cfg.history_gossip() > cfg.history_length() {
         return Some(("C34:accepted-history-gossip-above-history-length", json!({"history_gossip": cfg.history_gossip(), "history_length": cfg.history_length()})));
@@ -190,6 +219,10 @@ fn violated(cfg: &Config) -> Option<(&'static str, serde_json::Value)> {
         if s < 100 {
             return Some(("C34:accepted-topic-max-transmit-size-below-100", json!({"topic": topic_name(t), "max_transmit_size": s})));
         }
+    }
+    // last, so that the known finding never hides another violation of the same config
+    if let Some(v) = topics(2) {
+        return Some(v);
     }
     None
 }
@@ -207,7 +240,7 @@ fn check_builder(case: &Case) -> Outcome {
     let used_topic = case.calls.iter().any(per_topic_call);
     match b.build() {
         Ok(cfg) => {
-            if let Some((sig, d)) = violated(&cfg) {
+            if let Some((sig, d)) = violated(&cfg, &case.calls) {
                 return Outcome::fail(sig, d);
             }
             Outcome::pass_l(used_topic, if used_topic { vec!["accepted", "per-topic-setter"] } else { vec!["accepted"] })
@@ -268,7 +301,7 @@ fn check_heartbeat(case: &HCase) -> Outcome {
         Ok(c) => c,
         Err(_) => return Outcome::pass_l(false, vec!["rejected"]),
     };
-    let inconsistent = violated(&cfg);
+    let inconsistent = violated(&cfg, &case.calls);
     let hb = cfg.heartbeat_interval();
     let mut node = match catch(|| Node::new(cfg, gs::AllowAllSubscriptionFilter {})) {
         Ok(Ok(n)) => n,
@@ -325,7 +358,13 @@ fn check_heartbeat(case: &HCase) -> Outcome {
             Ok(Ok(())) => {}
             Ok(Err(e)) => return Outcome::fail("C34:accepted-config-codec-refuses-minimal-rpc", e),
             Err(p) => {
-                let sig = if matches!(op, BOp::Heartbeat) { "C34:heartbeat-panic" } else { "C34:behaviour-panic-outside-heartbeat" };
+                let unvalidated = inconsistent.as_ref().is_some_and(|(s, _)| s.ends_with(UNVALIDATED));
+                let sig = match (matches!(op, BOp::Heartbeat), unvalidated) {
+                    (true, false) => "C34:heartbeat-panic",
+                    (true, true) => "C34:heartbeat-panic-with-unvalidated-topic-mesh-params",
+                    (false, false) => "C34:behaviour-panic-outside-heartbeat",
+                    (false, true) => "C34:behaviour-panic-outside-heartbeat-with-unvalidated-topic-mesh-params",
+                };
                 return Outcome::fail(
                     sig,
                     json!({"panic": p, "step": step, "op": format!("{op:?}"), "config_violation": inconsistent.as_ref().map(|(s, d)| json!({"signature": s, "detail": d})),
